@@ -396,16 +396,28 @@ Proof.
   intros ((A & B & C & D & E) & K) T. split; [|exact K]. cbn [ms mset]. unfold srw. cbn [liq vap oth sT sP with_T].
   repeat split; auto. rewrite E. reflexivity.
 Qed.
+Lemma call_bubble_n_sim n a m m' : mr m m' ->
+  mr (fst (call_bubble_n orc n a m)) (fst (call_bubble_n orc' n a m')) /\ snd (call_bubble_n orc' n a m') = snd (call_bubble_n orc n a m).
+Proof.
+  intros M. os. unfold call_bubble_n. cbn [fst snd]. split; [apply mr_tick; exact M|].
+  destruct M as (_ & K). rewrite K, OB. reflexivity.
+Qed.
+Lemma call_dew_n_sim n a m m' : mr m m' ->
+  mr (fst (call_dew_n orc n a m)) (fst (call_dew_n orc' n a m')) /\ snd (call_dew_n orc' n a m') = snd (call_dew_n orc n a m).
+Proof.
+  intros M. os. unfold call_dew_n. cbn [fst snd]. split; [apply mr_tick; exact M|].
+  destruct M as (_ & K). rewrite K, OD. reflexivity.
+Qed.
 Lemma call_bubble_sim c c' a m m' : cr c c' -> mr m m' ->
   mr (fst (call_bubble orc c a m)) (fst (call_bubble orc' c' a m')) /\ snd (call_bubble orc' c' a m') = snd (call_bubble orc c a m).
 Proof.
-  intros C M. os. unfold call_bubble. cbn [fst snd]. split; [apply mr_tick; exact M|].
+  intros C M. os. unfold call_bubble, call_bubble_n. cbn [fst snd]. split; [apply mr_tick; exact M|].
   destruct M as (_ & K). destruct C as (I & _). rewrite K, OB, I. reflexivity.
 Qed.
 Lemma call_dew_sim c c' a m m' : cr c c' -> mr m m' ->
   mr (fst (call_dew orc c a m)) (fst (call_dew orc' c' a m')) /\ snd (call_dew orc' c' a m') = snd (call_dew orc c a m).
 Proof.
-  intros C M. os. unfold call_dew. cbn [fst snd]. split; [apply mr_tick; exact M|].
+  intros C M. os. unfold call_dew, call_dew_n. cbn [fst snd]. split; [apply mr_tick; exact M|].
   destruct M as (_ & K). destruct C as (I & _). rewrite K, OD, I. reflexivity.
 Qed.
 
@@ -515,11 +527,11 @@ Proof.
     pose proof C as (_ & _ & _ & _ & _ & _ & _ & EN). rewrite EN.
     destruct (negb (cN c =? 2)); [split; [reflexivity|exact M1]|].
     destruct bubble.
-    + destruct (call_bubble_sim c c' sv _ _ C M1) as (M2 & EB).
-      destruct (call_bubble orc c _ (mset m a)) as [m2 [xa ya]]. destruct (call_bubble orc' c' _ (mset m' a')) as [m2' r']. cbn [fst snd] in *. subst r'.
+    + destruct (call_bubble_n_sim (length comp) sv _ _ M1) as (M2 & EB).
+      destruct (call_bubble_n orc _ _ (mset m a)) as [m2 [xa ya]]. destruct (call_bubble_n orc' _ _ (mset m' a')) as [m2' r']. cbn [fst snd] in *. subst r'.
       apply lever_sim; auto. apply mr_mset; [exact M2|]. destruct specT; [apply sr_with_T, sr_with_P|apply sr_with_P, sr_with_T]; apply M2.
-    + destruct (call_dew_sim c c' sv _ _ C M1) as (M2 & EB).
-      destruct (call_dew orc c _ (mset m a)) as [m2 [xa ya]]. destruct (call_dew orc' c' _ (mset m' a')) as [m2' r']. cbn [fst snd] in *. subst r'.
+    + destruct (call_dew_n_sim (length comp) sv _ _ M1) as (M2 & EB).
+      destruct (call_dew_n orc _ _ (mset m a)) as [m2 [xa ya]]. destruct (call_dew_n orc' _ _ (mset m' a')) as [m2' r']. cbn [fst snd] in *. subst r'.
       apply lever_sim; auto. apply mr_mset; [exact M2|]. destruct specT; [apply sr_with_T, sr_with_P|apply sr_with_P, sr_with_T]; apply M2.
   - split; [reflexivity|apply mr_mset; assumption].
   - destruct SS as (-> & SA). split; [reflexivity|apply mr_mset; assumption].
